@@ -29,7 +29,8 @@ def run(tier):
     regs = [("loop-alloca", "findings/C01-loop-alloca.pn", "exit=0 out=sum = 4498500\\n"),
             ("array-member-element", "findings/C01-array-member-element.pn", "exit=5 out="),
             ("call-convention", "findings/C03-call-convention.pn", "exit=3 out="),
-            ("constant-named-main", "findings/C03-constant-named-main.pn", "exit=7 out=")]
+            ("constant-named-main", "findings/C03-constant-named-main.pn", "exit=7 out="),
+            ("member-named-like-constant", "findings/C01-member-named-like-constant.pn", "exit=43 out=")]
     rr = C.run_harness("exec", [(rn, open(os.path.join(C.VERIF, f)).read()) for rn, f, _ in regs], ck.work + "/regress", timeout=600)
     for rn, f, want in regs:
         got = rr.get(rn, ["missing"])
